@@ -204,6 +204,7 @@ def build(recipe):
                 F.add_clause([n_, -1] if n_ >= 2 else [])
         elif op == 'nv+':
             F.update_variable_number(F.number_of_variables() + st[1])
+            grow(F.number_of_variables())
         else:
             raise KeyError(op)
     grow(F.number_of_variables())
